@@ -42,6 +42,23 @@ def candidates_from_trace(trace):
             if b is not None:
                 objs.setdefault(m.group(1), {})[int(m.group(2))] = b
     cands = []
+    # \uXXXX literals: the symbolic input of a contract unit has no assignment in the trace, but the code units the function decoded do
+    fc = [st.get("val") for st in trace or [] if st.get("lhs") == "first_code"]
+    sc = [st.get("val") for st in trace or [] if st.get("lhs") == "second_code"]
+    def _u(v):
+        try:
+            return int(str(v).rstrip("ul")) & 0xFFFF
+        except ValueError:
+            return None
+    for v in fc:
+        a = _u(v)
+        if a is None:
+            continue
+        cands.append(b"\\u%04x" % a)
+        for w in sc:
+            b_ = _u(w)
+            if b_ is not None:
+                cands.append(b"\\u%04x\\u%04x" % (a, b_))
     if seq:
         cands.append(bytes(seq))
     for name, d in objs.items():
@@ -116,7 +133,86 @@ def minify_family(o, r, path):
     finally:
         shutil.rmtree(work, ignore_errors=True)
 
+def print_family(o, r, path):
+    """string bytes read off the counterexample -> the real printers (reference escaping, caller buffers of every length between guard zones)"""
+    cands = candidates_from_trace(o.get("trace"))
+    work = tempfile.mkdtemp(prefix="vfr_")
+    try:
+        exe = build_oracle("print_oracle.c", work)
+        if exe is None:
+            return False
+        tried = 0; seen = set()
+        for c in cands:
+            c = c.split(b"\x00")[0]
+            if not c or c in seen or len(c) > 64:
+                continue
+            seen.add(c); tried += 1
+            p = subprocess.run([exe, c.hex()], capture_output=True, text=True, timeout=30)
+            if p.returncode not in (0, 2):
+                with open(path, "a") as f:
+                    f.write("\nNATIVE REPLAY (real code from %s, ASan/UBSan): FAILS\n  string bytes (hex): %s\n  command: replay/print_oracle %s\n  output:\n%s%s\n" % (REPO, c.hex(), c.hex(), p.stdout, p.stderr[-1500:]))
+                return True
+        with open(path, "a") as f:
+            f.write("\nnative replay: %d strings derived from the counterexample were run against the real printers; none failed the oracle\n" % tried)
+        return False
+    finally:
+        shutil.rmtree(work, ignore_errors=True)
+
+def _dbl(v):
+    v = str(v).strip().lower()
+    if v.endswith("f") and len(v) > 1 and v[-2].isdigit():
+        v = v[:-1]
+    v = {"+inf": "inf", "-inf": "-inf", "+nan": "nan", "-nan": "nan"}.get(v, v)
+    try:
+        float(v)
+        return v
+    except ValueError:
+        return None
+
+def compare_family(o, r, path):
+    """two doubles read off the counterexample (harness arguments a and b, or valuedouble fields) -> real cJSON_Compare"""
+    vals = {"a": [], "b": []}
+    other = []
+    for st in o.get("trace") or []:
+        lhs = st.get("lhs", "")
+        d = _dbl(st.get("val"))
+        if d is None:
+            continue
+        if lhs in vals:
+            vals[lhs].append(d)
+        elif lhs.endswith("valuedouble") or lhs in ("d", "return_value_nondet_double"):
+            other.append(d)
+    pairs = []
+    for a in vals["a"][:2]:
+        for b in vals["b"][:2]:
+            pairs += [(a, b), (b, a)]
+    uniq = list(dict.fromkeys(other))[:6]
+    pairs += list(itertools.permutations(uniq, 2))
+    pairs = list(dict.fromkeys(pairs))[:60]
+    if not pairs:
+        return False
+    work = tempfile.mkdtemp(prefix="vfr_")
+    try:
+        exe = build_oracle("compare_oracle.c", work)
+        if exe is None:
+            return False
+        for (a, b) in pairs:
+            p = subprocess.run([exe, a, b], capture_output=True, text=True, timeout=20)
+            if p.returncode == 1:
+                with open(path, "a") as f:
+                    f.write("\nNATIVE REPLAY (real code from %s, ASan/UBSan): FAILS\n  numbers: %s %s\n  command: replay/compare_oracle %s %s\n  output:\n%s%s\n" % (REPO, a, b, a, b, p.stdout, p.stderr[-1500:]))
+                return True
+        with open(path, "a") as f:
+            f.write("\nnative replay: %d pairs of numbers derived from the counterexample were run against the real code; none failed the oracle\n" % len(pairs))
+        return False
+    finally:
+        shutil.rmtree(work, ignore_errors=True)
+
 PARSE_UNITS = ["parse_hex4", "utf16_literal_to_utf8", "buffer_skip_whitespace", "skip_utf8_bom", "parse_number", "parse_number_plain", "parse_value",
                "cJSON_ParseWithLengthOpts", "cJSON_ParseWithOpts", "cJSON_Parse", "cJSON_ParseWithLength", "parse_string_b", "parse_array", "parse_object"]
 REPLAYERS = {u: parse_family for u in PARSE_UNITS}
 REPLAYERS["minify_b"] = minify_family
+for _u in ("compare_double", "compare_double_sym", "compare_b_00", "compare_b_11", "compare_b_21", "compare_b_22"):
+    REPLAYERS[_u] = compare_family
+for _u in ("print_string_ptr_b", "print_b_00", "print_b_10", "print_b_20", "print_b_11"):
+    REPLAYERS[_u] = print_family
